@@ -210,20 +210,26 @@ def rewrite(text, log, keep_derives=None, drop_derives=()):
         p = m.start() - 1
         while p >= 0 and msk[p] in ' \n\t':
             p -= 1
-        if p >= 0 and msk[p] not in '{};':
+        arm = p >= 1 and msk[p - 1:p + 1] == '=>'
+        if p >= 0 and msk[p] not in '{};' and not arm:
             raise ExtractError('log macro in expression position')
         j = msk.index('(', m.start())
         k = lex.match_bracket(msk, j)
         e = k + 1
         mm = re.compile(r'\s*;').match(msk, e)
-        if mm:
+        if mm and not arm:
             e = mm.end()
         args = text[j + 1:k]
         am = lex.mask(args)
         if re.search(r'(?<![=!<>])=(?!=)|\?|\w+!\s*[\(\[{]|\|', am):
             raise ExtractError('log macro with possibly effectful argument: ' + args.strip()[:60])
-        log.append(('D5', 'log macro removed: %s!' % m.group(1), ln(m.start())))
-        edits.append((m.start(), e, None))
+        if arm:
+            # `PAT => debug!(..),` : the macro is the arm's whole value, of type (); written as the unit value
+            log.append(('D5', 'log macro as a match-arm value replaced by (): %s!' % m.group(1), ln(m.start())))
+            edits.append((m.start(), e, '()' + '\n' * text.count('\n', m.start(), e)))
+        else:
+            log.append(('D5', 'log macro removed: %s!' % m.group(1), ln(m.start())))
+            edits.append((m.start(), e, None))
     # D2: const X: &str -> &'static str
     for m in re.finditer(r'\bconst\s+([A-Z_0-9a-z]+)\s*:\s*(&\s*str)\b', msk):
         log.append(('D2', "const &str -> &'static str: " + m.group(1), ln(m.start())))
